@@ -76,10 +76,11 @@ def build(need_model=True):
             rc, out, dt = run("coq_makefile -f _CoqProject -o Makefile.coq", cwd=COQ)
             if rc != 0:
                 raise BuildError("coq_makefile failed:\n" + out)
-        rc, out, dt = run("timeout 1500 make -f Makefile.coq -j16 2>&1 | grep -v '^COQ' | tail -40", cwd=COQ, timeout=1600)
+        rc, out, dt = run("timeout 1500 make -f Makefile.coq -j16 > .make.log 2>&1; rc=$?; grep -v '^COQ' .make.log | tail -40; exit $rc", cwd=COQ, timeout=1600)
         info["make_s"] = round(dt, 1)
         vo = os.path.join(COQ, "extract", "Dispatch.vo")
-        if not os.path.exists(vo):
+        if rc != 0 or not os.path.exists(vo):
+            # a failed build must not leave the check running on stale compiled files
             raise BuildError("coq build failed:\n" + out)
         info["make_tail"] = out[-2000:]
         if need_model:
